@@ -61,6 +61,16 @@ func C14Configs(p *spec.Program) []spec.Config {
 		b.NameOverrides[k] = "wild_" + fmt.Sprint(len(b.NameOverrides))
 		b.SchemaTypes[k] = spec.SimInt32Override
 	}
+	// keys spelled with the default package in front (its import path or its last element): no option
+	// defines that spelling, they match nothing — several per option
+	for i, k := range []string{"types.Sink.Name", "types.Sink.Count", "example.com/api/types.Sink.Ratio", "example.com/api/types.Leaf.Str", "types.Mid.Name"} {
+		b.Validators[k] = []string{fmt.Sprintf("Qualified%dValidator()", i)}
+		b.PlanModifiers[k] = []string{fmt.Sprintf("Qualified%dModifier()", i)}
+		b.NameOverrides[k] = fmt.Sprintf("qualified_%d", i)
+		b.SchemaTypes[k] = spec.SimInt32Override
+		b.ComputedFields = append(b.ComputedFields, k)
+		b.ExcludeFields = append(b.ExcludeFields, k)
+	}
 	b.CustomTypes = map[string]string{"Sink.Ratio": "CustomRatio", "Scalars.FBool": "CustomBool",
 		"Sink.On": "example.com/x/wrappers.Traits", "Sink.Status.Str": "example.com/x/wrappers.ByPath", "Leaf.Str": "example.com/x/wrappers.ByType"}
 	// no exact key for the qualified types: shorter, overlapping keys must not be picked by iteration order
